@@ -5,6 +5,10 @@ CHECKS = {
                 text="Class-invariant proof for Semaphore/BoundedSemaphore/Lock: every operation (public methods, the acquire.on_timeout closure, environment cancellation) is executed symbolically from an arbitrary invariant state with a waiter queue of unbounded length; release's loop is cut at an inductive invariant. By induction over operations the property holds on every schedule/history. Proof level because all obligations are discharged by SMT for unbounded inputs.",
                 note="Trusted: model of asyncio.Future (state machine, scheduled callbacks), IOLoop.add_timeout as ghost registration, the pyvc engine (validated each run by canaries and a concrete cross-check), z3/cvc5. _garbage_collect's filter is covered by the bounded cross-check only.",
                 technique="deductive: class invariant + per-operation contracts, VCs from the real source (pyvc), z3/cvc5"),
+    "C34": dict(category="other", design="DESIGN.md §6.6 C34",
+                text="MIXED. Proved by SMT for unbounded queues from arbitrary states: Condition.wait (tail append, timer registration and capture fact), wait.on_timeout (only a PENDING waiter resolves False; nothing else changes), notify_all (delegates with the queue length), Event.wait (both branches and both registered lambdas), Event.clear/is_set/__init__. Condition.notify's two-loop postcondition (exactly min(n, live) woken in arrival order with True) and Event.set are explored symbolically only for queues/sets of size <= 3 (symbolic states, symbolic n) - bounded, not counted as proved.",
+                note="Trusted: asyncio.Future model, IOLoop timer registration as ghost events, gen.with_timeout replaced by a stub returning a fresh pending future (its contract is C36's). notify(n) assumed n >= 0.",
+                technique="deductive: per-operation contracts from arbitrary states, VCs from the real source (pyvc) + z3; bounded symbolic exploration for notify/set"),
 }
 NOT_APPLICABLE = {
     "C40": "two OS threads synchronised by a condition variable and a socket pair; deadlock-freedom/eventual dispatch under thread interleavings is outside what sequential per-function contracts can express (DESIGN §6.7)",
